@@ -148,6 +148,11 @@ def _call_api(sock, sc, conn):
         if mode in ("post", "seq"):
             kw["post_routine"] = _post_routine(sc)
             kw["sequential"] = mode == "seq"
+        if sc.get("minfid"):
+            # the min-fidelity retry loop around the request (the link reports goodness 0, so the first attempt
+            # already satisfies the constraint)
+            kw["min_fidelity_all_at_end"] = int(sc["minfid"])
+            kw["max_tries"] = int(sc.get("max_tries", 3))
     elif mode != "plain":
         raise ValueError("post routines exist for recv_keep only")
     if api == "recv_measure" and sc.get("via") == "builder":
